@@ -27,6 +27,7 @@ import os
 import re
 import shutil
 import subprocess
+import threading
 import sys
 import time
 
@@ -111,6 +112,7 @@ class Ctx:
         self._nontriv = set()
         self.findings = [f for f in load_known_findings() if f["property"] == prop]
         self._mdn = 0
+        self._lock = threading.RLock()
 
     # -- scratch helpers
     def path(self, *a):
@@ -119,8 +121,10 @@ class Ctx:
         return p
 
     def metadir(self):
-        self._mdn += 1
-        return self.path("md%d" % self._mdn)
+        with self._lock:
+            self._mdn += 1
+            n = self._mdn
+        return self.path("md%d" % n)
 
     # -- coverage bookkeeping
     def add_model_run(self, r):
@@ -140,6 +144,10 @@ class Ctx:
     # -- verdicts
     def violation(self, key, text, replay_src=None, replay_text=None):
         """register a violation; known finding keys are downgraded"""
+        with self._lock:
+            return self._violation(key, text, replay_src, replay_text)
+
+    def _violation(self, key, text, replay_src=None, replay_text=None):
         for f in self.findings:
             if f["kind"] == "finding" and f["key"] == key:
                 self.known_hits[key] = f["text"]
@@ -438,6 +446,9 @@ def validate_traces(ctx, spec_dir, module, cfg, trace_file, classify, max_reject
     per = (n + shards - 1) // shards
     blocks = [execs[i:i + per] for i in range(0, n, per)]
     import concurrent.futures as cf
+    with ctx._lock:
+        ctx._valn = getattr(ctx, "_valn", 0) + 1
+        tag = "v%d" % ctx._valn
 
     def run_block(bi_block):
         bi, block = bi_block
@@ -448,7 +459,7 @@ def validate_traces(ctx, spec_dir, module, cfg, trace_file, classify, max_reject
         rounds = 0
         while rest:
             rounds += 1
-            f = ctx.path("val", "%s-b%d-r%d.ndjson" % (module, bi, rounds))
+            f = ctx.path("val", "%s-%s-b%d-r%d.ndjson" % (module, tag, bi, rounds))
             with open(f, "w") as fh:
                 for ex in rest:
                     fh.write("\n".join(ex) + "\n")
@@ -469,7 +480,7 @@ def validate_traces(ctx, spec_dir, module, cfg, trace_file, classify, max_reject
             events += c
             accepted_execs += idx
             # confirm alone
-            f1 = ctx.path("val", "%s-b%d-r%d-single.ndjson" % (module, bi, rounds))
+            f1 = ctx.path("val", "%s-%s-b%d-r%d-single.ndjson" % (module, tag, bi, rounds))
             with open(f1, "w") as fh:
                 fh.write("\n".join(bad) + "\n")
             acc1, tot1, out1 = tlc_validate_file(ctx, spec_dir, module, cfg, f1, timeout=timeout, env=env)
@@ -608,7 +619,7 @@ def edge_tours(edges, maxlen=80, init=None):
     return tours, len(seen_e), len(parent)
 
 
-def run_driver_sharded(ctx, exe, lines, out_path, what="driver", nshards=None, timeout=3000, env=None):
+def run_driver_sharded(ctx, exe, lines, out_path, what="driver", nshards=None, timeout=3000, env=None, extra_args=(), header=None):
     """Run a script-driven driver (exe <script> <trace-out>) on `lines` split into shards that run in parallel;
     the traces are concatenated in shard order into out_path.  Returns True if every shard exited normally."""
     import concurrent.futures as cf
@@ -619,11 +630,11 @@ def run_driver_sharded(ctx, exe, lines, out_path, what="driver", nshards=None, t
     for i, part in enumerate(parts):
         s = ctx.path("shards", "%s-%d.txt" % (what.replace("/", "_"), i))
         o = ctx.path("shards", "%s-%d.ndjson" % (what.replace("/", "_"), i))
-        open(s, "w").write("\n".join(part) + "\n")
+        open(s, "w").write((header + "\n" if header else "") + "\n".join(part) + "\n")
         jobs.append((s, o))
     results = []
     with cf.ThreadPoolExecutor(max_workers=nshards) as pool:
-        futs = [pool.submit(run_driver, exe, [s, o], None, timeout, env) for s, o in jobs]
+        futs = [pool.submit(run_driver, exe, [s, o] + list(extra_args), None, timeout, env) for s, o in jobs]
         for f in futs:
             results.append(f.result())
     ok = True
